@@ -46,6 +46,12 @@ type c13Case struct {
 	// manager goroutine is held up (peer.loop busy-waits DelRaceD x 4 us): whichever comes
 	// first, no connection may be left open, and none that was to be refused gets a byte
 	DelRaceD int64 `json:"del_race_d,omitempty"`
+	// Listeners: Serve is given that many more (idle) listeners, around the one in use
+	Listeners int `json:"listeners,omitempty"`
+	// AlsoMapped: once the states are prepared, a further (passive) peer is added whose remote
+	// address is the IPv4-mapped IPv6 form of the target's IPv4 address: another key, another
+	// peer - the verdict on a connection from the IPv4 address itself stays what it was
+	AlsoMapped bool `json:"also_mapped,omitempty"`
 }
 
 func c13Spec(p c13Peer, i int) world.PeerSpec {
@@ -135,6 +141,7 @@ func c13Prop(t *testing.T, r *hx.Run) func(c c13Case) hx.Verdict {
 					return
 				}
 			}
+			w.ExtraListeners(c.Listeners)
 			w.Serve()
 			w.Settle()
 			// bring every peer to its state; remember established connections
@@ -291,6 +298,16 @@ func c13Prop(t *testing.T, r *hx.Run) func(c c13Case) hx.Verdict {
 				if w.Sessions(c.Peers[e.peer].Remote) != 1 {
 					fail("setup", "peer %s did not establish", c.Peers[e.peer].Remote)
 					return
+				}
+			}
+			if c.AlsoMapped && target >= 0 && !c.Mapped && c.Peers[target].State != "deleted" {
+				if ta := netip.MustParseAddr(c.Peers[target].Remote); ta.Is4() {
+					msp := world.PeerSpec{Remote: netip.AddrFrom16(ta.As16()).String(), LocalAS: 64512, RemoteAS: 64999, Passive: true, Hold: 90}
+					if err := w.AddPeer(msp); err != nil {
+						fail("setup", "AddPeer(%s): %v", msp.Remote, err)
+						return
+					}
+					w.Settle()
 				}
 			}
 			if c.Closed {
@@ -492,6 +509,8 @@ func genC13(rt *rapid.T) c13Case {
 		c.Dst = right
 	}
 	c.Mapped = rapid.IntRange(0, 4).Draw(rt, "mapped") == 0
+	c.Listeners = pick(rt, "listeners", 0, 0, 0, 1, 2)
+	c.AlsoMapped = rapid.IntRange(0, 4).Draw(rt, "alsomapped") == 0
 	if rapid.IntRange(0, 5).Draw(rt, "delrace") == 0 {
 		c.DelRaceD = pick[int64](rt, "delraced", 20, 80, 150)
 		c.Twins = max(c.Twins, 1)
